@@ -73,7 +73,20 @@ fn tag_of(b: &[u8]) -> Option<u8> {
 }
 
 fn ctx(id: u8, serial: u16) -> DecapContext {
-    DecapContext::new(Label::ThreeBytesLabel([id, serial as u8, (serial >> 8) as u8]), 0x0800 + serial, id, 100 + serial, serial, false, vec![])
+    // two contexts in three carry header extensions (every field of a context must come back as it was saved)
+    use dvb_gse_rust::header_extension::Extension;
+    let mut exts = Vec::new();
+    if serial % 3 != 0 {
+        if let Ok(e) = Extension::new(0x0200 | (serial & 0xFF), &[serial as u8, id]) {
+            exts.push(e);
+        }
+        if serial % 3 == 2 {
+            if let Ok(e) = Extension::new(0x0100 | (id as u16), &[]) {
+                exts.push(e);
+            }
+        }
+    }
+    DecapContext::new(Label::ThreeBytesLabel([id, serial as u8, (serial >> 8) as u8]), 0x0800 + serial, id, 100 + serial, serial, serial % 2 == 1, exts)
 }
 
 #[derive(Clone)]
